@@ -16,8 +16,6 @@ import (
 	"fmt"
 	"io"
 	"log"
-	"os"
-	"strings"
 
 	"golang.org/x/crypto/ssh"
 	"golang.org/x/crypto/ssh/testdata"
@@ -101,53 +99,9 @@ type world struct {
 	nAlpha int    // w.ops[:nAlpha] is the alphabet of the exploration; the rest are scripted operations
 }
 
-// raceCompanion reads the output of the free-running -race companion (checks/c43/race, built and
-// run by bin/check before this binary). A data race or a panic whose frames lie in package
-// ssh/agent is reported; a companion that could not be built or did not run is only noted.
-func raceCompanion(c *vf.Ctx) {
-	path := os.Getenv("VERIF_RACE_REPORT")
-	if path == "" {
-		c.Set("race_pass", "not run (no companion output)")
-		return
-	}
-	b, err := os.ReadFile(path)
-	if err != nil {
-		c.Set("race_pass", "not run: "+err.Error())
-		return
-	}
-	out := string(b)
-	report := func(marker string) string {
-		i := strings.Index(out, marker)
-		if i < 0 {
-			return ""
-		}
-		r := out[i:]
-		if len(r) > 3000 {
-			r = r[:3000]
-		}
-		return r
-	}
-	switch {
-	case strings.Contains(out, "WARNING: DATA RACE") && strings.Contains(out, "golang.org/x/crypto/ssh/agent."):
-		c.Set("race_pass", "data race reported")
-		c.Violation("data race inside package ssh/agent when goroutines use one keyring at the same time (race detector, free-running companion)", map[string]any{"report": report("WARNING: DATA RACE")})
-	case strings.Contains(out, "panic:") && strings.Contains(out, "ssh/agent"):
-		c.Set("race_pass", "panic")
-		c.Violation("keyring panics when goroutines use it at the same time (free-running companion)", map[string]any{"report": report("panic:")})
-	case strings.Contains(out, "rounds completed"):
-		c.Set("race_pass", "ok: "+strings.TrimSpace(out[strings.Index(out, "race companion"):]))
-	default:
-		first := out
-		if len(first) > 300 {
-			first = first[:300]
-		}
-		c.Set("race_pass", "inconclusive: "+first)
-	}
-}
-
 func run(c *vf.Ctx) {
 	log.SetOutput(io.Discard) // ServeAgent logs every failed request
-	raceCompanion(c)
+	c.RaceCompanion("one keyring", "golang.org/x/crypto/ssh/agent.")
 	c.Rule("sequence mode: every history over the operation alphabet up to depth D (4 quick, 6 thorough), a successor being expanded only when (private keyring state read verbatim through the hook, model state) is new; each history replayed from scratch on a fresh keyring directly, through the pipelined client<->ServeAgent and through the serialised client<->ServeAgent, every step compared with the abstract agent. A state is non-trivial from depth 2 on. Hardening: in EVERY history each slice handed to the agent (passphrase, data) is a private copy that is overwritten when the call returns and each slice handed out (listed blobs, signature blobs) is overwritten after inspection (exception: the passphrase given to Lock on the keyring directly, which keyring.Lock keeps as upstream does); every history of length <=2 (thorough 3) over the whole alphabet appended to 8 prefixes that build non-empty states (four identities, staggered / partly elapsed lifetimes, locked, replaced entries, slice reordered by removals); 51 scripted histories through one connection with Sign over 1 B .. 4 MiB+1 (17 sizes incl. 2^k+-1) in ascending / descending / alternating order between small Lock/Unlock/List/Remove requests, comments and passphrases of 255..65537 bytes, and wrong passphrases that differ from the right one in length, last byte, case, a NUL or a blank. Totality: every request body of <=3 bytes, and every truncation, internal length-field rewrite and frame-length rewrite of every valid request message, through ServeAgent without panic")
 	c.Assume("keys are fixed test keys (ssh/testdata); signatures are verified by the independent verifier ref/sshsigref (stdlib rsa/ecdsa/ed25519)")
 	c.Assume("time: lifetimes are 1000 s and the clock advances in steps of 600 s by moving the stored expiry times through the verif hook (keyring.go reads time.Now() directly); no real waiting, the 400 s margin makes wall-clock jitter irrelevant")
